@@ -75,8 +75,8 @@ def first_diff(a, b):
     return f"{len(idx)} entries differ; first at {i}: got {a[i]!r} expected {b[i]!r}"
 
 
-def rel_defect(a, b):
-    """max|a-b| / (max|b| + 1)."""
+def rel_defect(a, b, floor=None):
+    """max|a-b| / (max|b| + 1); with `floor`: max|a-b| / max(max|a|, max|b|, floor) (for outputs that may be small)."""
     a = np.asarray(a, dtype=np.float64)
     b = np.asarray(b, dtype=np.float64)
     if a.shape != b.shape:
@@ -85,6 +85,8 @@ def rel_defect(a, b):
         return 0.0
     if not (np.isfinite(a).all() and np.isfinite(b).all()):
         return float("inf")
+    if floor is not None:
+        return float(np.max(np.abs(a - b)) / max(np.max(np.abs(a)), np.max(np.abs(b)), floor))
     return float(np.max(np.abs(a - b)) / (np.max(np.abs(b)) + 1.0))
 
 
